@@ -8,6 +8,8 @@ import (
 	"fmt"
 	"math"
 	"math/bits"
+	"os"
+	"strconv"
 	"strings"
 )
 
@@ -122,16 +124,18 @@ func (t *Term) IsTrue() bool  { return t.op == OpConst && t.sort.K == SBool && t
 func (t *Term) IsFalse() bool { return t.op == OpConst && t.sort.K == SBool && t.val == 0 }
 
 type TB struct {
+	nots  map[int]*Term
 	tab   map[string]*Term
 	terms []*Term
 	nvar  int
 	vars  []*Term
 	True  *Term
 	False *Term
+	maxTerms int
 }
 
 func NewTB() *TB {
-	tb := &TB{tab: map[string]*Term{}}
+	tb := &TB{tab: map[string]*Term{}, nots: map[int]*Term{}}
 	tb.True = tb.mk(&Term{op: OpConst, sort: BoolSort, val: 1})
 	tb.False = tb.mk(&Term{op: OpConst, sort: BoolSort, val: 0})
 	return tb
@@ -149,16 +153,43 @@ func (tb *TB) lookup(op Op, a, b *Term) (*Term, bool) {
 }
 
 func (tb *TB) mk(t *Term) *Term {
-	var sb strings.Builder
-	fmt.Fprintf(&sb, "%d|%d|%d|%d|%d|%d|%s", t.op, t.sort.K, t.sort.W, t.val, t.i1, t.i2, t.name)
+	buf := make([]byte, 0, 48+8*len(t.args))
+	buf = strconv.AppendInt(buf, int64(t.op), 10)
+	buf = append(buf, '|')
+	buf = strconv.AppendInt(buf, int64(t.sort.K), 10)
+	buf = append(buf, '|')
+	buf = strconv.AppendInt(buf, int64(t.sort.W), 10)
+	buf = append(buf, '|')
+	buf = strconv.AppendUint(buf, t.val, 10)
+	buf = append(buf, '|')
+	buf = strconv.AppendInt(buf, int64(t.i1), 10)
+	buf = append(buf, '|')
+	buf = strconv.AppendInt(buf, int64(t.i2), 10)
+	buf = append(buf, '|')
+	buf = append(buf, t.name...)
 	for _, a := range t.args {
-		fmt.Fprintf(&sb, "|%d", a.id)
+		buf = append(buf, '|')
+		buf = strconv.AppendInt(buf, int64(a.id), 10)
 	}
-	k := sb.String()
+	k := string(buf)
 	if e, ok := tb.tab[k]; ok {
 		return e
 	}
 	t.id = len(tb.terms)
+	if tb.maxTerms > 0 && t.id > tb.maxTerms {
+		if os.Getenv("VP_DEBUGVC") != "" {
+			h := map[string]int{}
+			for _, x := range tb.terms[len(tb.terms)-500000:] {
+				k := fmt.Sprintf("op%d/%s/%d", x.op, x.sort, len(x.args))
+				h[k]++
+			}
+			fmt.Println("TERMHIST", h)
+			for _, x := range tb.terms[len(tb.terms)-12:] {
+				fmt.Println("  LAST", x.id, x.op, x.sort, x.body())
+			}
+		}
+		panic(unsupported{"term budget exceeded"})
+	}
 	tb.terms = append(tb.terms, t)
 	tb.tab[k] = t
 	return t
@@ -221,7 +252,12 @@ func (tb *TB) Not(x *Term) *Term {
 	if x.op == OpNot {
 		return x.args[0]
 	}
-	return tb.mk(&Term{op: OpNot, sort: BoolSort, args: []*Term{x}})
+	if n, ok := tb.nots[x.id]; ok {
+		return n
+	}
+	n := tb.mk(&Term{op: OpNot, sort: BoolSort, args: []*Term{x}})
+	tb.nots[x.id] = n
+	return n
 }
 
 func (tb *TB) And(xs ...*Term) *Term {
@@ -277,8 +313,7 @@ func (tb *TB) And(xs ...*Term) *Term {
 
 // tabNot returns the existing negation of x if it has already been built.
 func (tb *TB) tabNot(x *Term) (*Term, bool) {
-	k := fmt.Sprintf("%d|%d|%d|%d|%d|%d|%s|%d", OpNot, SBool, 0, 0, 0, 0, "", x.id)
-	t, ok := tb.tab[k]
+	t, ok := tb.nots[x.id]
 	return t, ok
 }
 
@@ -589,6 +624,16 @@ func (tb *TB) Eq(a, b *Term) *Term {
 		return r
 	}
 	if a.sort.K == SBV {
+		// range check against a constant
+		if b.IsConst() && !a.IsConst() {
+			if bd, ok := tb.boundsOf(a); ok && (b.val < bd.lo || b.val > bd.hi) {
+				return tb.False
+			}
+		} else if a.IsConst() && !b.IsConst() {
+			if bd, ok := tb.boundsOf(b); ok && (a.val < bd.lo || a.val > bd.hi) {
+				return tb.False
+			}
+		}
 		// piecewise equality against a constant for concats with constant parts
 		if b.IsConst() && a.op == OpConcat {
 			return tb.eqConcatConst(a, b)
